@@ -5,6 +5,7 @@ CONSTANTS
   Frag = TRUE
   HoldMutex = FALSE
   CloseC = FALSE
+  Tampers = 0
   Recheck = TRUE
 INIT Init
 NEXT Next
